@@ -307,7 +307,9 @@ void block(TState st, const void* addr, bool timed, uint64_t deadline, const cha
 }
 
 // wake up to n threads blocked in state st on addr; returns number woken
+uint64_t lastWokenMask = 0;
 int wakeWaiters(TState st, const void* addr, int n) {
+  lastWokenMask = 0;
   std::vector<Thr*> ws;
   for (Thr* t : G.thr) if (t->state == st && t->waitAddr == addr) ws.push_back(t);
   std::sort(ws.begin(), ws.end(), [](Thr* a, Thr* b) { return a->arrival < b->arrival; });
@@ -323,6 +325,7 @@ int wakeWaiters(TState st, const void* addr, int n) {
     t->state = T_RUNNABLE;
     t->woken = true;
     t->timed = false;
+    if (t->id < 63) lastWokenMask |= (1ull << t->id);
     ++woken;
   }
   return woken;
@@ -396,13 +399,23 @@ static const char* kindName(Kind k) {
 std::string fmt(const Event& e) {
   char buf[700];
   if (e.kind == K_NOTE) {
-    snprintf(buf, sizeof buf, "%d note %s", e.tid, e.note.c_str());
+    snprintf(buf, sizeof buf, "%d %s", e.tid, e.note.c_str());
     return buf;
   }
   std::string nm = e.addr ? nameOf(e.addr) : "-";
   if (nm.empty()) nm = "?";
+  auto sx = [&](uint64_t v) -> long long {
+    if (e.kind == K_FUTEX_WAKE || e.kind == K_FUTEX_WAIT_RET) return (long long)v;
+    switch (e.size) {
+      case 1: return (long long)(int8_t)v;
+      case 2: return (long long)(int16_t)v;
+      case 4: return (long long)(int32_t)v;
+      default: return (long long)v;
+    }
+  };
+  long long aux = (e.kind == K_FUTEX_WAIT) ? (long long)e.aux : sx(e.aux);
   snprintf(buf, sizeof buf, "%d %s %s %d %lld %lld %lld", e.tid, kindName(e.kind), nm.c_str(), (int)e.mo,
-           (long long)e.operand, (long long)e.result, (long long)e.aux);
+           sx(e.operand), sx(e.result), aux);
   return buf;
 }
 
@@ -519,7 +532,7 @@ long syscall(long number, ...) {
       schedPoint();
       int n = (int)a3;
       int w = wakeWaiters(T_BLK_FUTEX, addr, n);
-      logEvent(K_FUTEX_WAKE, 0, 4, addr, (uint64_t)n, (uint64_t)w, 0);
+      logEvent(K_FUTEX_WAKE, 0, 4, addr, (uint64_t)n, (uint64_t)w, lastWokenMask);
       return w;
     }
   }
